@@ -76,8 +76,9 @@ func runC02(c *Ctx) {
 		sub := &Ctx{V1: c.V1, V2: c.V2, Tier: c.Tier, R: NewReport("tmp", c.Tier)}
 		checkD2(sub, pr)
 		checkP2(sub, pr)
+		checkP2c(sub, pr)
 		for _, o := range sub.R.Obls {
-			if strings.HasSuffix(o.Key, ".removePriority") || strings.HasSuffix(o.Key, "#append-unique") || strings.HasSuffix(o.Key, "#append-base") || strings.HasSuffix(o.Key, "#registered-appended") || strings.HasSuffix(o.Key, "#unregister") || strings.HasSuffix(o.Key, "#list") {
+			if strings.HasSuffix(o.Key, "#list-shrinks-with-table") || strings.HasSuffix(o.Key, ".removePriority") || strings.HasSuffix(o.Key, "#append-unique") || strings.HasSuffix(o.Key, "#append-base") || strings.HasSuffix(o.Key, "#registered-appended") || strings.HasSuffix(o.Key, "#unregister") || strings.HasSuffix(o.Key, "#list") {
 				r.Check(o.OK, "X11", o.Key, o.Site, o.Detail, o.Detail)
 			}
 		}
